@@ -776,6 +776,9 @@ class Impl:
         if pid in self.kern.procs:
             st, z = self.kern.procs[pid]
             self.fp.write("%d/stat" % pid, stat_line(pid, st, z, self.kern.lines.get(pid)))
+            # every /proc/<pid> has a cmdline file (empty for kernel threads and zombies): for a comm of 15 bytes or more
+            # psutil.Process.name() (reached through str(p) / repr(p)) goes on to read it
+            self.fp.write("%d/cmdline" % pid, "")
         else:
             self.fp.remove(str(pid))
 
